@@ -16,7 +16,7 @@ flock 9
 stamp() {
   { find "$REPO" -path "$REPO/.git" -prune -o -type f \( -name '*.go' -o -name go.mod -o -name go.sum \) -print0 | sort -z | xargs -0 sha256sum
     find "$V/harness" "$V/shim" "$V/tools" -type f \( -name '*.go' -o -name go.mod -o -name go.sum \) -print0 | sort -z | xargs -0 sha256sum
-    echo "$REPO"; go version; } | sha256sum | cut -d' ' -f1
+    echo "$REPO${VERIF_TAGS:-}"; go version; } | sha256sum | cut -d' ' -f1
 }
 S=$(stamp)
 if [ -f "$BUILD/stamp" ] && [ "$(cat "$BUILD/stamp")" = "$S" ] && [ -x "$BUILD/vcheck" ] && [ -x "$BUILD/gofasta" ]; then
@@ -35,7 +35,7 @@ rm -rf "$BUILD/instr"
 rm -rf "$BUILD/hsrc"; mkdir -p "$BUILD/hsrc"
 cp -r "$V/harness/." "$BUILD/hsrc/"
 (cd "$BUILD/hsrc" && go mod edit -replace "github.com/virus-evolution/gofasta=$REPO" && cat "$REPO/go.sum" >> go.sum && sort -u go.sum -o go.sum) || fail "go.mod"
-(cd "$BUILD/hsrc" && go build -overlay "$BUILD/instr/overlay.json" -o "$BUILD/vcheck" . 2>"$BUILD/build.log") || { head -50 "$BUILD/build.log"; fail "cannot build harness against the instrumented tree"; }
+(cd "$BUILD/hsrc" && go build ${VERIF_TAGS:+-tags $VERIF_TAGS} -overlay "$BUILD/instr/overlay.json" -o "$BUILD/vcheck" . 2>"$BUILD/build.log") || { head -50 "$BUILD/build.log"; fail "cannot build harness against the instrumented tree"; }
 if [ "${VERIF_RACE:-0}" = 1 ]; then
   (cd "$BUILD/hsrc" && go build -race -overlay "$BUILD/instr/overlay_plain.json" -o "$BUILD/vcheck_race" . 2>"$BUILD/build_race.log") || { head -50 "$BUILD/build_race.log"; fail "cannot build race harness"; }
 fi
